@@ -19,7 +19,9 @@ Shapes == {"ident", "path", "inst", "tuple", "reflife"}
 PKinds == {"i32", "string", "str"}
 ParamLists == UNION { [1..n -> PKinds] : n \in 0..MaxParams }
 Rets == {"owned", "borrow-deps", "borrow-arg"}
-Progs == { p \in [shape : Shapes, async : BOOLEAN, ret : Rets, params : ParamLists] :
+\* mock: the function is also made mockable (`mockall`; the derivation is test-gated, the programs are non-test builds):
+\* the leaf trait and its Impl<T> implementation must not depend on that
+Progs == { p \in [shape : Shapes, async : BOOLEAN, ret : Rets, params : ParamLists, mock : {"none", "mockall"}] :
            /\ (p.ret = "borrow-arg" => \E i \in DOMAIN p.params : p.params[i] = "str")
            /\ (p.ret = "borrow-deps" => p.shape \in {"ident", "path", "reflife"})
            /\ (p.shape = "reflife" => p.ret # "borrow-arg") }
